@@ -1,5 +1,5 @@
 //! C18 — Local uses the zone the environment names, and notices changes.
-//! Shape H: every event history up to a length bound over a 16-event menu, executed on the real `Local`
+//! Shape H: every event history up to a length bound over a 17-event menu, executed on the real `Local`
 //! (public API) with the guarded mock clock; `TZ` is process-global, so histories are split over child processes.
 use chrono::offset::verif::set_mock_now;
 use chrono::{Local, MappedLocalTime, NaiveDateTime, Offset, TimeZone};
@@ -133,7 +133,7 @@ fn spawn_worker() -> Worker {
 }
 
 const NTZ: usize = 11;
-const NEV: usize = 16; // 0..11 set TZ; 11 = +0.6 s; 12 = +1.0 s; 13 = convert on A; 14 = convert on B; 15 = convert on a fresh thread
+const NEV: usize = 17; // 16 = +1.0 s and then convert on A (one event); 0..11 set TZ; 11 = +0.6 s; 12 = +1.0 s; 13 = convert on A; 14 = convert on B; 15 = convert on a fresh thread
 
 fn event_name(env: &Env, e: usize) -> String {
     match e {
@@ -142,7 +142,8 @@ fn event_name(env: &Env, e: usize) -> String {
         12 => "+1.0s".into(),
         13 => "convert@A".into(),
         14 => "convert@B".into(),
-        _ => "convert@fresh".into(),
+        15 => "convert@fresh".into(),
+        _ => "+1.0s,convert@A".into(),
     }
 }
 
@@ -191,10 +192,19 @@ fn run_history(acc: &mut Acc, env: &Env, hist: &[usize], base_ns: u64, initial: 
                 }
             }
             _ => {
+                if e == 16 {
+                    // compound event: wait one second, then convert on A
+                    if real_clock {
+                        std::thread::sleep(std::time::Duration::from_millis(1030));
+                    } else {
+                        now += 1_000_000_000;
+                        set_mock_now(Some(base_ns + now));
+                    }
+                }
                 let t_before = if real_clock { started.elapsed().as_nanos() as u64 } else { now };
                 let (got, fresh) = match e {
-                    13 | 14 => {
-                        let i = e - 13;
+                    13 | 14 | 16 => {
+                        let i = if e == 14 { 1 } else { 0 };
                         let w = workers[i].get_or_insert_with(spawn_worker);
                         let _ = w.req.send(());
                         let r = w.resp.recv().unwrap_or(Err("worker thread died".into()));
@@ -267,8 +277,8 @@ fn run_history(acc: &mut Acc, env: &Env, hist: &[usize], base_ns: u64, initial: 
 fn decode(mut idx: u64, len: usize) -> Vec<usize> {
     // the last event is always a conversion (3 choices), the others range over the whole menu
     let mut h = vec![0usize; len];
-    h[len - 1] = 13 + (idx % 3) as usize;
-    idx /= 3;
+    h[len - 1] = 13 + (idx % 4) as usize;
+    idx /= 4;
     for k in (0..len - 1).rev() {
         h[k] = (idx % NEV as u64) as usize;
         idx /= NEV as u64;
@@ -276,7 +286,7 @@ fn decode(mut idx: u64, len: usize) -> Vec<usize> {
     h
 }
 fn count(len: usize) -> u64 {
-    3 * (NEV as u64).pow(len as u32 - 1)
+    4 * (NEV as u64).pow(len as u32 - 1)
 }
 
 
@@ -402,7 +412,7 @@ fn main() {
         property: "C18",
         classes: CLASSES,
         required: &["conversion", "stale_allowed", "reloaded", "fresh_thread", "second_thread", "fallback_zone", "file_zone", "rule_zone", "changed_within_window", "public_clock_replay"],
-        rule: "one process, the real Local through its public API, two persistent worker threads (each with its own thread-local cache) plus fresh-thread conversions; event menu of 16: set TZ to one of 11 values {unset, empty, :/abs/file, /abs/file, zoneinfo-relative name, :name, fixed POSIX rule, the same rule behind a colon, alternating POSIX rule, garbage, :/nonexistent}, advance the (guarded, mock) clock by 0.6 s or 1.0 s, convert on thread A / B / a fresh thread (a conversion probes 4 fixed instants in both directions inside one step, so its zone signature is observed); ALL event sequences of length <= k ending in a conversion, from four start states (initial TZ unset / a rule, thread A with or without an existing cache), each executed from scratch; oracle: the signature must be exactly that of one zone, namely the zone of a TZ value held at some moment within the last second before the conversion (exactly the current value for a thread's first conversion or when nothing changed for >= 1 s); a decoy file with a zoneinfo-relative name sits in the working directory; a stride of histories is replayed without the clock seam, with real sleeps",
+        rule: "one process, the real Local through its public API, two persistent worker threads (each with its own thread-local cache) plus fresh-thread conversions; event menu of 17: set TZ to one of 11 values {unset, empty, :/abs/file, /abs/file, zoneinfo-relative name, :name, fixed POSIX rule, the same rule behind a colon, alternating POSIX rule, garbage, :/nonexistent}, advance the (guarded, mock) clock by 0.6 s or 1.0 s, convert on thread A / B / a fresh thread (a conversion probes 4 fixed instants in both directions inside one step, so its zone signature is observed); ALL event sequences of length <= k ending in a conversion, from four start states (initial TZ unset / a rule, thread A with or without an existing cache), each executed from scratch; oracle: the signature must be exactly that of one zone, namely the zone of a TZ value held at some moment within the last second before the conversion (exactly the current value for a thread's first conversion or when nothing changed for >= 1 s); a decoy file with a zoneinfo-relative name sits in the working directory; a stride of histories is replayed without the clock seam, with real sleeps",
         assumptions: &["no preemption inside a conversion (getenv/setenv are not interceptable and concurrent use is undefined behaviour)", "the system zone of this sandbox is Etc/UTC, so 'system zone' and the final UTC fallback are observationally equal; private mount namespaces with another /etc/localtime are attempted in the thorough tier and skipped with a note if unshare is refused"],
     };
     let only = replay_unit(&args);
